@@ -39,6 +39,9 @@ type uploadCase struct {
 	Kind    string `json:"kind"` // "upload"
 	Unified bool   `json:"unified_device"`
 	Seq     []int  `json:"launch_sequence"` // indices into the code-object alphabet
+	// Ctx: the launching context of each launch (index; nil = all launches from the first context). Context 1 is
+	// a second process (its own PID and address space, made by Init), context 2 a sibling of context 0 (same PID).
+	Ctx []int `json:"launching_context,omitempty"`
 }
 
 var uploadAlphabet = []string{"A", "B: same symbol and length as A, other bytes", "A2: equal copy of A loaded again", "C: other length", "A again (same object)"}
@@ -70,8 +73,8 @@ func uploadObjects() []*insts.KernelCodeObject {
 }
 
 type upArgs struct {
-	P uint64
-	N uint32
+	P   uint64
+	N   uint32
 	Pad uint32
 }
 
@@ -84,73 +87,109 @@ func runUpload(c uploadCase) (sig, msg string) {
 	return runUploadNoRecover(c)
 }
 
+// runUploadNoRecover enqueues the launches one at a time; after each call the queue's new commands are applied,
+// in order, to a model of PHYSICAL device memory (host-to-device copies are translated page by page through the
+// driver's page table with the launching process's PID), and at the launch command the bytes the GPU would fetch
+// at the dispatch packet's kernel_object - translated with the PID the launch command carries - must be the
+// launched object's instruction bytes.
 func runUploadNoRecover(c uploadCase) (sig, msg string) {
-	d := driver.MakeBuilder().WithEngine(sim.NewSerialEngine()).WithFreq(1 * sim.GHz).WithLog2PageSize(12).WithPageTable(vm.NewPageTable(12)).Build("Driver")
+	pt := vm.NewPageTable(12)
+	d := driver.MakeBuilder().WithEngine(sim.NewSerialEngine()).WithFreq(1 * sim.GHz).WithLog2PageSize(12).WithPageTable(pt).Build("Driver")
 	for i := 0; i < 2; i++ {
 		d.RegisterGPU(upPort{n: sim.RemotePort(fmt.Sprintf("GPU%d.CP", i+1))}, driver.DeviceProperties{CUCount: 4, DRAMSize: 4 << 20})
 	}
-	ctx := d.Init()
-	if c.Unified {
-		d.SelectGPU(ctx, d.CreateUnifiedGPU(ctx, []int{1, 2}))
+	ctx0 := d.Init()
+	ctxs := []*driver.Context{ctx0, d.Init(), d.InitWithExistingPID(ctx0)}
+	var queues []*driver.CommandQueue
+	for _, ctx := range ctxs {
+		if c.Unified {
+			d.SelectGPU(ctx, d.CreateUnifiedGPU(ctx, []int{1, 2}))
+		} else {
+			d.SelectGPU(ctx, 1)
+		}
+		queues = append(queues, d.CreateCommandQueue(ctx))
 	}
-	q := d.CreateCommandQueue(ctx)
 	objs := uploadObjects()
-	for _, i := range c.Seq {
+	memory := map[uint64]byte{} // physical
+	phys := func(pid vm.PID, va uint64) (uint64, bool) {
+		pg, ok := pt.Find(pid, va)
+		if !ok {
+			return 0, false
+		}
+		return pg.PAddr + (va - pg.VAddr), true
+	}
+	for launch, i := range c.Seq {
+		ci := 0
+		if launch < len(c.Ctx) {
+			ci = c.Ctx[launch]
+		}
+		q, pid := queues[ci], driver.VerifContextPID(ctxs[ci])
 		d.EnqueueLaunchKernel(q, objs[i], [3]uint32{512, 1, 1}, [3]uint16{64, 1, 1}, &upArgs{N: 4})
-	}
-	// replay the queue in order into a model of device memory
-	memory := map[uint64]byte{}
-	launch := 0
-	check := func(co *insts.KernelCodeObject, pkt *kernels.HsaKernelDispatchPacket, what string) bool {
-		want := objs[c.Seq[launch]]
-		if co != want {
-			sig, msg = "driver-upload/launch-command-carries-another-code-object", fmt.Sprintf("launch %d (%s) of sequence %v", launch+1, what, c.Seq)
-			return false
-		}
-		got := make([]byte, len(want.Data))
-		for j := range got {
-			got[j] = memory[pkt.KernelObject+uint64(j)]
-		}
-		if !bytes.Equal(got, want.Data) {
-			k := 0
-			for k < len(got) && got[k] == want.Data[k] {
-				k++
+		want := objs[i]
+		check := func(co *insts.KernelCodeObject, lpid vm.PID, pkt *kernels.HsaKernelDispatchPacket, what string) bool {
+			if co != want {
+				sig, msg = "driver-upload/launch-command-carries-another-code-object", fmt.Sprintf("launch %d (%s) of sequence %v", launch+1, what, c.Seq)
+				return false
 			}
-			sig = "driver-upload/device-code-is-not-the-launched-kernels-code"
-			msg = fmt.Sprintf("launch %d (%s) of the sequence %v over {%v}: the dispatch packet's kernel_object %#x holds bytes that differ from the launched object's instruction bytes at offset %d (%#x, want %#x) when the launch command is reached",
-				launch+1, what, c.Seq, uploadAlphabet, pkt.KernelObject, k, got[k], want.Data[k])
-			return false
-		}
-		return true
-	}
-	for q.NumCommand() > 0 {
-		cmd := q.Dequeue()
-		switch m := cmd.(type) {
-		case *driver.MemCopyH2DCommand:
-			if data, ok := m.Src.([]byte); ok {
-				for j, b := range data {
-					memory[uint64(m.Dst)+uint64(j)] = b
+			if lpid != pid {
+				sig, msg = "driver-upload/launch-command-carries-another-pid", fmt.Sprintf("launch %d (%s) of sequence %v: pid %d, the launching context's is %d", launch+1, what, c.Seq, lpid, pid)
+				return false
+			}
+			got := make([]byte, len(want.Data))
+			for j := range got {
+				pa, ok := phys(lpid, pkt.KernelObject+uint64(j))
+				if !ok {
+					sig = "driver-upload/kernel-object-not-mapped-for-the-launching-process"
+					msg = fmt.Sprintf("launch %d (%s) of the sequence %v over {%v} by contexts %v (context 1 is a second process): the dispatch packet's kernel_object %#x is not mapped in the address space of process %d, which launches it",
+						launch+1, what, c.Seq, uploadAlphabet, c.Ctx, pkt.KernelObject, lpid)
+					return false
 				}
+				got[j] = memory[pa]
 			}
-		case *driver.LaunchKernelCommand:
-			if !check(m.CodeObject, m.Packet, "single GPU") {
-				return
-			}
-			launch++
-		case *driver.LaunchUnifiedMultiGPUKernelCommand:
-			for gi, pkt := range m.PacketArray {
-				if pkt == nil {
-					continue // the array has one spare slot
+			if !bytes.Equal(got, want.Data) {
+				k := 0
+				for k < len(got) && got[k] == want.Data[k] {
+					k++
 				}
-				if !check(m.CodeObject, pkt, fmt.Sprintf("unified device, packet of member %d", gi+1)) {
+				sig = "driver-upload/device-code-is-not-the-launched-kernels-code"
+				msg = fmt.Sprintf("launch %d (%s) of the sequence %v over {%v} by contexts %v: the dispatch packet's kernel_object %#x (process %d) holds bytes that differ from the launched object's instruction bytes at offset %d (%#x, want %#x) when the launch command is reached",
+					launch+1, what, c.Seq, uploadAlphabet, c.Ctx, pkt.KernelObject, lpid, k, got[k], want.Data[k])
+				return false
+			}
+			return true
+		}
+		launched := false
+		for q.NumCommand() > 0 {
+			cmd := q.Dequeue()
+			switch m := cmd.(type) {
+			case *driver.MemCopyH2DCommand:
+				if data, ok := m.Src.([]byte); ok {
+					for j, b := range data {
+						if pa, ok := phys(pid, uint64(m.Dst)+uint64(j)); ok {
+							memory[pa] = b
+						}
+					}
+				}
+			case *driver.LaunchKernelCommand:
+				if !check(m.CodeObject, pid, m.Packet, "single GPU") { // the launch request gets queue.Context.pid
 					return
 				}
+				launched = true
+			case *driver.LaunchUnifiedMultiGPUKernelCommand:
+				for gi, pkt := range m.PacketArray {
+					if pkt == nil {
+						continue // the array has one spare slot
+					}
+					if !check(m.CodeObject, pid, pkt, fmt.Sprintf("unified device, packet of member %d", gi+1)) {
+						return
+					}
+				}
+				launched = true
 			}
-			launch++
 		}
-	}
-	if launch != len(c.Seq) {
-		return "driver-upload/launch-commands-missing", fmt.Sprintf("%d launches enqueued, %d launch commands in the queue", len(c.Seq), launch)
+		if !launched {
+			return "driver-upload/launch-commands-missing", fmt.Sprintf("launch %d of %v enqueued no launch command", launch+1, c.Seq)
+		}
 	}
 	return "", ""
 }
@@ -160,11 +199,26 @@ func uploadPass(r *harness.Run) {
 	var cases []uploadCase
 	for _, uni := range []bool{false, true} {
 		for a := 0; a < n; a++ {
-			cases = append(cases, uploadCase{"upload", uni, []int{a}})
+			cases = append(cases, uploadCase{"upload", uni, []int{a}, nil})
 			for b := 0; b < n; b++ {
-				cases = append(cases, uploadCase{"upload", uni, []int{a, b}})
+				cases = append(cases, uploadCase{"upload", uni, []int{a, b}, nil})
 				for c := 0; c < n; c++ {
-					cases = append(cases, uploadCase{"upload", uni, []int{a, b, c}})
+					cases = append(cases, uploadCase{"upload", uni, []int{a, b, c}, nil})
+				}
+			}
+		}
+	}
+	// the same sequences of length <= 2 launched from two processes / a sibling context in every assignment
+	for _, uni := range []bool{false, true} {
+		for a := 0; a < n; a++ {
+			for b := 0; b < n; b++ {
+				for ca := 0; ca < 3; ca++ {
+					for cb := 0; cb < 3; cb++ {
+						if ca == 0 && cb == 0 {
+							continue
+						}
+						cases = append(cases, uploadCase{"upload", uni, []int{a, b}, []int{ca, cb}})
+					}
 				}
 			}
 		}
@@ -175,5 +229,5 @@ func uploadPass(r *harness.Run) {
 		}
 	}
 	r.Cov["driver_upload_launch_sequences"] = len(cases)
-	fmt.Printf("driver upload: %d launch sequences (length <= 3 over %d code objects, single GPU and unified device)\n", len(cases), n)
+	fmt.Printf("driver upload: %d launch sequences (length <= 3 over %d code objects, single GPU and unified device; length 2 also from a second process and a sibling context)\n", len(cases), n)
 }
